@@ -30,6 +30,9 @@ impl Policy for Weighted {
 impl Weighted {
     pub fn set_threshold(e: &Env, t: u32, r: ContextRule, a: Address) { wt::set_threshold(e, t, &r, &a) }
     pub fn set_signer_weight(e: &Env, s: Signer, w: u32, r: ContextRule, a: Address) { wt::set_signer_weight(e, &s, w, &r, &a) }
+    pub fn get_threshold(e: &Env, id: u32, a: Address) -> u32 { wt::get_threshold(e, id, &a) }
+    pub fn get_signer_weights(e: &Env, r: ContextRule, a: Address) -> Map<Signer, u32> { wt::get_signer_weights(e, &r, &a) }
+    pub fn calculate_weight(e: &Env, s: Vec<Signer>, r: ContextRule, a: Address) -> u32 { wt::calculate_weight(e, &s, &r, &a) }
 }
 #[contract]
 pub struct Acct;
@@ -172,6 +175,31 @@ impl Check for Thresholds {
                 st.tx(kind, got);
                 if got != exp { return Err(violation("config.zero_or_unreachable_refused", kind, i, format!("{s:?}: real {got} model {exp}; model {m:?} signers {}", cfg.signers))); }
                 if !got && w.storage_digest(&[&pol]) != before { return Err(violation("fail.no_trace", kind, i, format!("{s:?}"))); }
+            }
+            // configuration getters equal the model (and refuse when nothing is installed)
+            let th = e.try_invoke_contract::<u32, soroban_sdk::Error>(&pol, &Symbol::new(e, "get_threshold"), (rule.id, acct.clone()).into_val(e));
+            match (&th, m.installed) {
+                (Ok(Ok(t)), true) if *t == m.t => {}
+                (Err(_), false) => {}
+                _ => return Err(violation("config.getters_eq_model", "get_threshold", i, format!("get_threshold = {th:?}, model installed={} t={} after {s:?}", m.installed, m.t))),
+            }
+            if cfg.weighted && m.installed {
+                let ws = e.try_invoke_contract::<Map<Signer, u32>, soroban_sdk::Error>(&pol, &Symbol::new(e, "get_signer_weights"), (rule.clone(), acct.clone()).into_val(e));
+                let ok = match &ws {
+                    Ok(Ok(mp)) => mp.len() as usize == m.w.len() && m.w.iter().all(|(k, v)| mp.get(signer(*k)) == Some(*v)),
+                    _ => false,
+                };
+                if !ok {
+                    return Err(violation("config.getters_eq_model", "get_signer_weights", i, format!("stored weights differ from model {:?} after {s:?}", m.w)));
+                }
+                let all: Vec<Signer> = Vec::from_iter(e, (0..=cfg.signers).map(|k| signer(k)));
+                let cw = e.try_invoke_contract::<u32, soroban_sdk::Error>(&pol, &Symbol::new(e, "calculate_weight"), (all, rule.clone(), acct.clone()).into_val(e));
+                let want = total(&m.w);
+                match (&cw, want) {
+                    (Ok(Ok(x)), Some(t)) if *x == t => {}
+                    (Err(_), None) => {}
+                    _ => return Err(violation("weighted.accept_iff_weight", "calculate_weight", i, format!("calculate_weight(all signers) = {cw:?}, model {want:?}"))),
+                }
             }
             st.state(&(cfg.weighted, m.installed, m.t.min(20), m.w.values().filter(|x| **x > 0).count(), std::mem::discriminant(s)));
         }
